@@ -20,9 +20,11 @@ open Orix.Codec Orix.Codec.Ang Orix.Gen.Io
 /-
 Full statement (for *all* maps and writer options on which the writer does not raise):
     readAng (writeAng o m) = quantise o m.
-It does **not** hold for the code as it is: see the proved counter-examples below (multi-word phase names,
-column maps, phases without points, ci = -1).  Proved: the statement under the explicit predicate `AngWF`,
-whose conjuncts are exactly these exclusions plus naming hygiene of extra columns.
+It does **not** hold for the code as it is: see the proved counter-examples below (phases without points,
+ci = -1).  Proved: the statement under the explicit predicate `AngWF`, whose conjuncts are exactly these
+exclusions plus naming hygiene (whitespace-normalised phase names, plain extra column names).
+Multi-word phase names and 1-D maps along y are covered since the fixes fb90b43 and 8c013c0; the pre-fix
+behaviour is kept as theorems about `hdrFormulasPreFix` and `coordsPreFix`.
 -/
 
 /-- **Round trip** for every map `m` (any shape, masks, phases, rotations per point, properties) and every
@@ -159,7 +161,7 @@ example : roundTrip noOpts (mapNamed (S "austenite")) = spec noOpts (mapNamed (S
   decide +kernel
 /-- … and the theorem's hypotheses are satisfiable -/
 example : AngWF noOpts (mapNamed (S "austenite")) where
-  names_single := by decide +kernel
+  names_normal := by decide +kernel
   pg_known := by decide +kernel
   extras_plain := by decide
   extras_fresh := by decide
@@ -175,23 +177,31 @@ example : AngWF noOpts (mapNamed (S "austenite")) where
   phases_known := by decide +kernel
   phases_used := by decide +kernel
 
-/-- **Counter-example (finding)**: a phase called "Iron fcc" comes back as "fcc" — the writer puts the name
-after `Formula`, of which the reader keeps only the last word, and formulas replace names. -/
-theorem multiword_name_counterexample :
-    roundTrip noOpts (mapNamed (S "Iron fcc")) ≠ spec noOpts (mapNamed (S "Iron fcc")) ∧
-    ((roundTrip noOpts (mapNamed (S "Iron fcc"))).map fun r => r.2.phases.map (·.name)) = some [S "fcc"] := by
+/-- a multi-word phase name comes back whole (since fb90b43 the reader keeps all words of `Formula`) … -/
+example : roundTrip noOpts (mapNamed (S "Iron Titanium Oxide")) = spec noOpts (mapNamed (S "Iron Titanium Oxide")) ∧
+    ((roundTrip noOpts (mapNamed (S "Iron fcc"))).map fun r => r.2.phases.map (·.name)) = some [S "Iron fcc"] := by
+  decide +kernel
+
+/-- … whereas the pre-fix reader (`hdrFormulasPreFix`: last word of `Formula`, and formulas replace names)
+made "fcc" of "Iron fcc" -/
+theorem multiword_name_prefix_counterexample :
+    (writeAng angWriter noOpts (mapNamed (S "Iron fcc"))).map (fun f => hdrFormulasPreFix f.header) = some [S "fcc"] ∧
+    (writeAng angWriter noOpts (mapNamed (S "Iron fcc"))).map (fun f => hdrFormulas f.header) = some [S "Iron fcc"] := by
   decide +kernel
 
 /-- a 1-D map of four points along y (`xmap.dx = 0`) -/
 def columnMap : GridIn :=
   { mapNamed (S "a") with oneD := true, nrows := 1, ncols := 4, dy := 100000, dx := 0 }
 
-/-- **Counter-example (finding)**: a column map is written with all coordinates zero, so shape and step size
-are lost. -/
-theorem column_map_counterexample :
-    roundTrip noOpts columnMap ≠ spec noOpts columnMap ∧
-    ((roundTrip noOpts columnMap).map fun r => r.2.pts.map (·.y)) = some [0, 0, 0, 0] ∧
-    ((spec noOpts columnMap).map fun r => r.2.pts.map (·.y)) = some [0, 100000, 200000, 300000] := by
+/-- a column map is written as one column and comes back with its y coordinates (since 8c013c0) … -/
+example : roundTrip noOpts columnMap = spec noOpts columnMap ∧
+    ((roundTrip noOpts columnMap).map fun r => r.2.pts.map (·.y)) = some [0, 100000, 200000, 300000] := by
+  decide +kernel
+
+/-- … whereas the pre-fix writer (`coordsPreFix`: every 1-D map is one row with `dx = xmap.dx`) wrote all
+coordinates zero -/
+theorem column_map_prefix_counterexample :
+    (List.range 4).map (coordsPreFix angWriter columnMap) = [(0, 0), (0, 0), (0, 0), (0, 0)] := by
   decide +kernel
 
 /-- two phases in the list, all points of the first -/
